@@ -63,6 +63,8 @@ def top_coq(o):
 
 def op_line(o):
     t = o[0]
+    if t == "Raw":
+        return o[1]
     if t == "Call":
         return "CALL %d %d %d %d" % o[1:]
     if t == "TCall":
@@ -1080,6 +1082,44 @@ __attribute__((noinline)) int mid(int x) { try { sink += thrower(x); } catch (in
 int main() { try { mid(1); } catch (int e) { sink += 10 * e; } printf("%d\n", sink); return 5; }
 """
 
+E2E_WITNESS_VFORK_SIGCHLD = r"""
+#include <stdio.h>
+#include <signal.h>
+#include <unistd.h>
+#include <sys/wait.h>
+static volatile int reaped;
+__attribute__((noinline)) static int note(int x) { return x + 1; }
+static void h(int s) { int st; (void)s; if (waitpid(-1, &st, WNOHANG) > 0) reaped += note(0); }
+__attribute__((noinline)) static int spawn(void) { pid_t pid = vfork(); if (!pid) _exit(3); return pid > 0; }
+__attribute__((noinline)) static int after(int x) { return x + (int)(getppid() > 0); }
+/* (SIGCHLD is sent a little after the parent is woken up: usually before vfork's exit hook has run, sometimes later) */
+int main(void) { signal(SIGCHLD, h); int r = spawn(); r = after(r) - 1; for (int i = 0; i < 3000 && !reaped; i++) usleep(1000);
+	printf("r=%d reaped=%d\n", r, reaped); return 0; }
+"""
+
+E2E_WITNESS_VFORK_THREAD = r"""
+#include <stdio.h>
+#include <pthread.h>
+#include <unistd.h>
+#include <sys/wait.h>
+static volatile int stop, started; static volatile long cnt;
+__attribute__((noinline)) static int work(int x) { return x + (getppid() > 0); }
+static void *th(void *a) { (void)a; started = 1; while (!stop) cnt += work(1); return NULL; }
+__attribute__((noinline)) static int spawn(void) { pid_t pid = vfork(); if (!pid) { for (volatile int i = 0; i < 3000000; i++) ; _exit(3); }
+	int st; waitpid(pid, &st, 0); return WEXITSTATUS(st); }
+int main(void) { pthread_t t; pthread_create(&t, NULL, th, NULL); while (!started) ; int r = spawn(); r += spawn(); stop = 1;
+	pthread_join(t, NULL); printf("r=%d busy=%d\n", r, cnt > 0); return 0; }
+"""
+
+E2E_WITNESS_VFORK_FILTER = r"""
+#include <stdio.h>
+#include <unistd.h>
+#include <sys/wait.h>
+__attribute__((noinline)) static int spawn(void) { pid_t pid = vfork(); if (!pid) _exit(3); int st; waitpid(pid, &st, 0); return WEXITSTATUS(st); }
+__attribute__((noinline)) static int after(int x) { return x + (int)(getppid() > 0); }
+int main(void) { int r = spawn(); r += after(0); r += spawn(); r += after(0); printf("r=%d\n", r); return 0; }
+"""
+
 E2E_WITNESS_MAX_STACK = r"""
 #include <setjmp.h>
 #include <stdio.h>
@@ -1188,6 +1228,143 @@ def gen_xjmp(rng, force_cross=False):
     return "\n".join(out) + "\n", tags
 
 
+
+def gen_vff(rng):
+    """vfork + exec/_exit below a chain of traced functions, recorded under a filter that leaves vfork (or everything
+    around it) unrecorded: -N vfork, -D n, -F f, -N ancestor.  The child makes traced calls before it execs.
+    -> (source, record options, tags)"""
+    k = rng.randint(1, 3)
+    cdepth = rng.randint(0, 2)
+    out = [PRELUDE_C, "static volatile int nsp_;", "static NI int fn_leaf(int x) { ENTER(\"fn_leaf\"); return x + 1; }",
+           "static NI int fn_post(int x) { ENTER(\"fn_post\"); CALL(fn_leaf, 4); return x + 2; }"]
+    leave = rng.choice(["execl(\"/bin/true\", \"true\", (char *)0); _exit(9);", "_exit(3);"])
+    for i in range(cdepth, 0, -1):
+        nme = "fn_c%d" % i
+        pre = "CALL(fn_leaf, 1); " if rng.random() < 0.5 else ""
+        body = leave if i == cdepth else "CALL(fn_c%d, 1);" % (i + 1)
+        out.append("static NI int %s(int x) { ENTER(\"%s\"); %s%s return x; }" % (nme, nme, pre, body))
+    child = "CALL(fn_c1, 1); _exit(8);" if cdepth else leave
+    pre = "CALL(fn_leaf, 1); " if rng.random() < 0.5 else ""
+    post = "CALL(fn_leaf, 3); " if rng.random() < 0.5 else ""
+    out.append("static NI int fn_spawn(int x) { ENTER(\"fn_spawn\"); %s\n"
+               "\t{ volatile int sd_ = D; pid_t p_ = vfork();\n"
+               "\t  if (p_ == 0) { TASK = ++nsp_; %s }\n"
+               "\t  TASK = 0; D = sd_; { int st_ = 0; waitpid(p_, &st_, 0); sink += WEXITSTATUS(st_); } }\n"
+               "\tCALL(fn_post, 2); %sreturn x; }" % (pre, child, post))
+    nxt = "fn_spawn"
+    for i in range(k, 0, -1):
+        nme = "fn_p%d" % i
+        post = rng.choice(["CALL(fn_leaf, 5); ", "CALL(fn_post, 5); ", ""])
+        out.append("static NI int %s(int x) { ENTER(\"%s\"); CALL(%s, 1); %sreturn x; }" % (nme, nme, nxt, post))
+        nxt = nme
+    twice = rng.random() < 0.3
+    out.append("int main(void)\n{\n\tsetvbuf(stdout, NULL, _IONBF, 0);\n\tENTER(\"main\");\n\tCALL(%s, 1);\n%s\tCALL(fn_post, 6);\n"
+               "\tlogline(\"S\", \"sink\", sink);\n\treturn sink & 63;\n}" % (nxt, "\tCALL(%s, 2);\n" % nxt if twice else ""))
+    opt = rng.choice([["-N", "vfork"], ["-N", "vfork"], ["-D", str(rng.randint(1, k + 3))], ["-D", str(k + 2)],
+                      ["-F", "^fn_post"], ["-F", "^fn_spawn"], ["-F", "^fn_p1"], ["-N", "^fn_p%d" % rng.randint(1, k)],
+                      ["-N", "^fn_spawn"]])          # (^: a regex, gcc may have named the function fn_spawn.constprop.0)
+    tags = {"vfork-filter", "vfork-exec", "vfork-filter:" + opt[0] + (" vfork" if opt[1] == "vfork" else ""),
+            "vfork-filter:child-calls=%d" % cdepth}
+    return "\n".join(out) + "\n", opt, tags
+
+
+def expected_under_filter(opt, out):
+    """the program's own log (all tasks, in time order) -> {task: [(name, depth)]} that replay must show under `opt`"""
+    seq = []
+    for line in out.splitlines():
+        w = line.split()
+        if len(w) == 4 and w[0] == "E":
+            seq.append((int(w[1]), w[2], int(w[3])))
+    res = {}
+    if opt[0] == "-D":
+        lim = int(opt[1])
+        for t, n, d in seq:
+            res.setdefault(t, [])
+            if d < lim:
+                res[t].append((n, d))
+    elif opt[0] == "-F":
+        inside = None
+        for t, n, d in seq:
+            res.setdefault(t, [])
+            if inside is not None and d <= inside:
+                inside = None
+            if inside is None and n == opt[1].lstrip("^"):
+                inside = d
+            if inside is not None:
+                res[t].append((n, d - inside))
+    elif opt[0] == "-N" and opt[1] != "vfork":
+        inside = None
+        for t, n, d in seq:
+            res.setdefault(t, [])
+            if inside is not None and d <= inside:
+                inside = None
+            if inside is None and n == opt[1].lstrip("^"):
+                inside = d
+            if inside is None:
+                res[t].append((n, d))
+    else:
+        for t, n, d in seq:
+            res.setdefault(t, []).append((n, d))
+        # -N vfork: no record of vfork in the child's task anchors its depth - replay shows the child from depth 0
+        for t in res:
+            if t != 0 and res[t]:
+                d0 = res[t][0][1]
+                res[t] = [(n, d - d0) for n, d in res[t]]
+    return res
+
+
+def judge_vff(obs, opt):
+    probs = []
+    if "error" in obs:
+        return [("machinery", obs["error"])]
+    if obs["traced_rc"] == 124:
+        return [("hang", "the traced program (or uftrace record) did not terminate; native run exits with %s" % obs["native_rc"])]
+    if obs["native_rc"] != obs.get("traced_status"):
+        probs.append(("status", "exit status %s natively, %s under uftrace record %s (%s)" % (
+            obs["native_rc"], obs.get("traced_status"), " ".join(opt), obs.get("record_err", ""))))
+    if obs["native_out"] != obs["traced_out"]:
+        probs.append(("output", "program output differs between the native and the traced run"))
+    if "replay" not in obs:
+        return probs + [("replay", "no trace data")]
+    want = expected_under_filter(opt, obs["traced_out"])
+    rp = {t: own_funcs(e) for t, e in obs["replay"].items()}
+    rp = {t: e for t, e in rp.items() if e}
+    for task, w in sorted(want.items()):
+        if not w:
+            continue
+        same = [t for t, e in rp.items() if [n for n, _ in e] == [n for n, _ in w]]
+        if not same and task != 0:
+            # the ENTRY records of the functions the child never returns from are written only when something below
+            # them is recorded (a completed call, a recorded exec): a proper prefix is all the trace can hold
+            pre = [t for t, e in rp.items() if [n for n, _ in e] == [n for n, _ in w][:len(e)]]
+            if pre:
+                same = pre[:1]
+                w = w[:len(rp[pre[0]])]
+            elif not any(e and e[0][0].startswith("fn_c") for e in rp.values()):
+                continue
+        if not same:
+            first = [t for t, e in rp.items() if e and e[0][0] == w[0][0]]
+            got = rp[first[0]] if first else []
+            probs.append(("calls", "task %d under %s: replay shows calls %s, the filter lets through %s" % (
+                task, " ".join(opt), [n for n, _ in got][:14], [n for n, _ in w][:14])))
+            continue
+        got = rp.pop(same[0])
+        if got != w:
+            k = [i for i in range(len(got)) if got[i] != w[i]][0]
+            probs.append(("depth", "task %d under %s: call #%d %s shown at depth %d, true depth %d" % (
+                task, " ".join(opt), k, got[k][0], got[k][1], w[k][1])))
+    for t, e in rp.items():
+        probs.append(("calls", "under %s replay shows a task with calls %s that the filter should not let through"
+                      % (" ".join(opt), [n for n, _ in e][:10])))
+    mt = re.search(r"stopped tracing with remaining functions\n=+\n((?:task: \d+\n(?:\[\d+\] .*\n?)*\n?)+)", obs.get("replay_tail", ""))
+    if mt:
+        main_tids = [t for t, e in obs["replay"].items() if any(n == "main" for n, _ in e)]
+        for t in re.findall(r"task: (\d+)", mt.group(1)):
+            if int(t) in main_tids:
+                probs.append(("replay", "replay ends with `uftrace stopped tracing with remaining functions` for the parent task"))
+    return probs
+
+
 FLAGS = {"c": [["-pg", "-O0"], ["-pg", "-O2"], ["-pg", "-O2", "-D_FORTIFY_SOURCE=2"], ["-finstrument-functions", "-O0"],
                ["-finstrument-functions", "-O2"]],
          "c++": [["-pg", "-O0"], ["-pg", "-O2"], ["-finstrument-functions", "-O1"]]}
@@ -1265,6 +1442,7 @@ def run_e2e_one(ctx, objdir, wd, name, src, lang, flags, timeout_native=10, time
     obs["replay_rc"] = rrc
     obs["replay"] = parse_replay(rout)
     obs["replay_text"] = rout[:6000]
+    obs["replay_tail"] = rout[-1500:]
     drc, dout, _ = sh(["timeout", "30", uft, "dump", "--no-pager", "-d", data], timeout=40, cwd=wd)
     obs["dump"] = parse_dump(dout)
     obs["dump_seq"] = parse_dump_seq(dout)
@@ -1378,6 +1556,10 @@ def run_e2e(ctx, objdir):
     for i in range(ctx.n(8, 90)):
         src, tags = gen_xjmp(rng, force_cross=(i < 2))
         cases.append({"name": "x%d" % i, "src": src, "lang": "c", "flags": rng.choice(FLAGS["c"]), "tags": sorted(tags)})
+    for i in range(ctx.n(10, 120)):
+        src, opt, tags = gen_vff(rng)
+        cases.append({"name": "v%d" % i, "src": src, "lang": "c", "flags": rng.choice(FLAGS["c"]), "tags": sorted(tags),
+                      "record_opts": opt, "vff": True})
     witnesses = [
         {"name": "w_oldjb", "src": E2E_WITNESS_OLD_JMPBUF, "lang": "c", "flags": ["-pg", "-O0"], "key": "replay-older-jmpbuf",
          "what": "longjmp to a jmp_buf that is not the most recent setjmp: replay shows the calls made after the jump one "
@@ -1429,6 +1611,16 @@ def run_e2e(ctx, objdir):
          "record_opts": ["-l"],
          "what": "record --nest-libcall: __cxa_rethrow starts the unwinder with _Unwind_Resume_or_Rethrow, whose return address was "
                  "hijacked like an ordinary library call: no handler found, std::terminate"},
+        {"name": "w_vfhandler", "src": E2E_WITNESS_VFORK_SIGCHLD, "lang": "c", "flags": ["-pg", "-O0"], "key": "vfork-sigchld-handler",
+         "what": "a traced SIGCHLD handler runs in the parent before vfork's exit hook: the first library call returning inside it took "
+                 "the vfork restore path and the process died with `invalid dynsym idx`"},
+        {"name": "w_vfthread", "src": E2E_WITNESS_VFORK_THREAD, "lang": "c", "flags": ["-pg", "-O0"], "key": "vfork-other-thread",
+         "what": "another thread of the vforking process leaves a library call while the child runs: it took the saved shadow-stack "
+                 "state of the vforking thread (trace of both threads garbled, `remaining functions`)"},
+        {"name": "w_vffilter", "src": E2E_WITNESS_VFORK_FILTER, "lang": "c", "flags": ["-pg", "-O0"], "key": "vfork-filter-state",
+         "record_opts": ["-N", "vfork"],
+         "what": "-N vfork: child and parent both leave the same vfork call, the notrace counter went to -1 and the second vfork() of "
+                 "the process was recorded"},
     ]
     wd = os.path.join(ctx.scratch, "e2e")
 
@@ -1442,7 +1634,7 @@ def run_e2e(ctx, objdir):
     mstreams = []
     nviol = 0
     for c, obs in zip(cases, results[:len(cases)]):
-        probs, stream = judge_e2e(obs)
+        probs, stream = (judge_vff(obs, c["record_opts"]), None) if c.get("vff") else judge_e2e(obs)
         tags = ["e2e:" + t for t in c["tags"]] + ["e2e:lang=" + c["lang"], "e2e:" + " ".join(c["flags"])]
         ctx.case(key=("e2e", c["src"], tuple(c["flags"]), tuple(c.get("record_opts", ()))), nontrivial=any(t in c["tags"] for t in ("longjmp", "throw", "exit-nested", "thread", "vfork-exec", "signal-handler")),
                  tags=tags, size=len(c["src"]))
@@ -1454,7 +1646,7 @@ def run_e2e(ctx, objdir):
             nviol += 1
             ctx.violation("C11 violated end-to-end (%s): %s" % (probs[0][0], probs[0][1]),
                           {"mode": "e2e", "program": c["src"], "lang": c["lang"], "flags": c["flags"],
-                           "record_opts": list(c.get("record_opts", ())),
+                           "record_opts": list(c.get("record_opts", ())), "vff": bool(c.get("vff")),
                            "problems": [list(p) for p in probs],
                            "native": {"rc": obs.get("native_rc"), "out": obs.get("native_out", "")[-1500:]},
                            "traced": {"rc": obs.get("traced_status"), "out": obs.get("traced_out", "")[-1500:]},
@@ -1502,6 +1694,19 @@ def run_e2e(ctx, objdir):
             got = sum(1 for ents in wres[w["name"]].get("replay", {}).values() for n, d in ents if n == nm)
             if got != want:
                 probs.append(("calls", "%s() is called %d times but replay shows %d calls" % (nm, want, got)))
+        if w["name"] == "w_vfthread" and not probs:
+            rp_ = wres[w["name"]].get("replay", {})
+            mains = [[n for n, _ in e if n in ("main", "spawn")] for e in rp_.values() if any(n == "main" for n, _ in e)]
+            if mains != [["main", "spawn", "spawn"]]:
+                probs.append(("calls", "the main thread called spawn() twice; replay shows %s for the task(s) with main()" % mains))
+            if "stopped tracing with remaining functions" in wres[w["name"]].get("replay_tail", ""):
+                probs.append(("replay", "replay ends with `uftrace stopped tracing with remaining functions`"))
+            if sum(1 for e in rp_.values() for n, _ in e if n == "th") != 1:
+                probs.append(("calls", "the thread function th() is not shown exactly once"))
+        if w["name"] == "w_vffilter" and not probs:
+            nvf = sum(1 for e in wres[w["name"]].get("replay", {}).values() for n, _ in e if n == "vfork")
+            if nvf:
+                probs.append(("calls", "-N vfork: replay shows %d call(s) of vfork" % nvf))
         if w["name"] == "w_paddepth" and not probs:
             # main(0) t1(1) t2(2): puts() is called from t2's cleanup pad, true depth 3, after t3 was closed
             for ents in wres[w["name"]].get("replay", {}).values():
@@ -1575,6 +1780,148 @@ def common_meta(ctx):
         "single thread per jmp_buf (the jmpbuf list and replay's setjmp_depth are shared by all threads/tasks)",
         "shadow stack below MCOUNT_RSTACK_MAX entries at setjmp",
     ]
+
+
+# ================================================================= vfork with unrecorded entries (Model Part 1c)
+MCOUNT_FL_NORECORD = 4
+
+
+def gen_vfk(rng):
+    """one thread: a few live frames, some of them library calls a filter left unrecorded (idx > record_idx), vfork,
+    the child's activity on the shared shadow stack, optionally a signal handler running in the parent before vfork's
+    exit hook, then every frame returns.  -> (harness lines, [(model op, index of the digest to compare, expected
+    return target or None)], tags)"""
+    lines, mops, tags = [], [], set()
+    st = {"slot": 3990, "ra": 10, "id": 0}
+    frames = []
+
+    def nxt():
+        st["slot"] -= rng.choice([2, 3, 4])
+        st["ra"] += 1
+        st["id"] += 1
+        return st["slot"], st["ra"], st["id"]
+
+    def ent(i, norec):
+        return "{| v_id := %d; v_norec := %s |}" % (i, "true" if norec else "false")
+
+    def push(plt, norec=False, vfork=False, never_returns=False):
+        s_, r_, i_ = nxt()
+        if vfork:
+            lines.append("PLT %d %d %d 0" % (VFORK_IDX, s_, r_))
+            mops.append(("SVfork (%s)" % ent(i_, False), len(lines) - 1, None))
+        elif plt:
+            lines.append("PLT %d %d %d 0" % (11 if never_returns else rng.randrange(4), s_, r_))
+            if norec:
+                lines.append("NOREC")
+            mops.append(("SPush (%s)" % ent(i_, norec), len(lines) - 1, None))
+        else:
+            fa = frames[-1][0] - 1 if frames else s_ + 3
+            lines.append("CALL %d %d %d %d" % (rng.randrange(16), s_, r_, fa))
+            mops.append(("SPush (%s)" % ent(i_, False), len(lines) - 1, None))
+        frames.append((s_, r_))
+
+    def ret():
+        s_, r_ = frames.pop()
+        lines.append("RET %d" % s_)
+        mops.append(("SPops 1", len(lines) - 1, r_))
+        st["slot"] = s_
+
+    push(False)
+    nrec_below = 0
+    for _ in range(rng.randrange(0, 5)):
+        if rng.random() < 0.5:
+            push(False)
+        else:
+            nr = rng.random() < 0.6
+            nrec_below += nr
+            push(True, nr)
+    tags.add("vfk:unrecorded-below-vfork=%d" % min(nrec_below, 2))
+    push(False, vfork=True)
+    vf = frames.pop()
+    parent_frames = list(frames)
+    parent_slot = st["slot"]
+    lines.append("VCHILD")
+    mops.append(("SChild", len(lines) - 1, vf[1]))
+    floor = len(frames)
+    nchild = rng.randrange(0, 7)
+    for _ in range(nchild):
+        x = rng.random()
+        if x < 0.4:
+            push(False)
+        elif x < 0.7:
+            push(True, rng.random() < 0.5)
+        elif len(frames) > floor:
+            ret()
+    tags.add("vfk:child-depth-at-exec=%d" % min(len(frames) - floor, 3))
+    if rng.random() < 0.6:
+        push(True, never_returns=True)          # exec*/_exit stand-in
+    frames[:] = parent_frames
+    st["slot"] = parent_slot - 1
+    if rng.random() < 0.4:
+        # a traced SIGCHLD handler runs in the parent before vfork's exit hook
+        tags.add("vfk:handler-before-exit-hook")
+        lines.append("VWAKE")
+        mops.append(("SWake", len(lines) - 1, None))
+        st["slot"] -= 8
+        push(False)
+        if rng.random() < 0.7:
+            push(True, rng.random() < 0.5)
+            ret()
+        ret()
+    lines.append("VPARENT")
+    mops.append(("SParent", len(lines) - 1, vf[1]))
+    st["slot"] = parent_slot
+    if rng.random() < 0.6:
+        push(rng.random() < 0.4)
+        ret()
+    while frames:
+        ret()
+    return lines, mops, tags
+
+
+def run_vfk(ctx, h, cases=None):
+    cases = cases or [gen_vfk(ctx.rng) for _ in range(ctx.n(60, 1200))]
+    flags, results = h.run_many([[("Raw", l) for l in lines] for lines, _, _ in cases])
+    terms, bad_targets = [], []
+    for k, ((lines, mops, tags), res) in enumerate(zip(cases, results)):
+        ctx.case(key=("vfk", tuple(lines)), nontrivial=True, tags=["inproc:vfork-norecord"] + ["inproc:" + t for t in sorted(tags)],
+                 size=len(lines))
+        ds = res["digests"]
+        obs = []
+        for op, di, want in mops:
+            if di >= len(ds):
+                obs.append("(0, 0, [])")
+                bad_targets.append((k, "the implementation stopped after %d operations: %s" % (len(ds), res["why"])))
+                break
+            idx, ridx, exc, ents, target, pops = ds[di]
+            obs.append("(%d, %d, [%s])" % (idx, ridx, "; ".join("true" if e[3] & MCOUNT_FL_NORECORD else "false" for e in ents)))
+            if want is not None and target != want:
+                bad_targets.append((k, "operation `%s`: control continues at %d, the real return address is %d" % (lines[di], target, want)))
+        terms.append("([%s], [%s])" % ("; ".join(op for op, _, _ in mops), "; ".join(obs)))
+    defs = "Definition vs : list (list vsop * list (N * N * list bool)) := [\n%s\n].\n" % ";\n".join(terms)
+    ev = coq.run_cases(ctx, "vfork_norecord", PRE, defs, [("mismatch", "bad_indices vagree vs 0"), ("violations", "bad_indices vok vs 0")])
+    if ev is None:
+        return
+    mm, vv = coq.parse_nat_list(ev["mismatch"]), coq.parse_nat_list(ev["violations"])
+    ctx.extra["vfork_norecord_cases"] = len(cases)
+
+    def payload(k):
+        lines, mops, tags = cases[k]
+        res = results[k]
+        return {"mode": "inproc-vfk", "script": lines, "model_ops": [list(m) for m in mops],
+                "impl_digests": [list(d[:3]) + [[list(e) for e in d[3]]] + list(d[4:]) for d in res["digests"]]}
+    seen = set()
+    for k in vv[:2]:
+        seen.add(k)
+        ctx.violation("C11 violated in-process (vfork with unrecorded entries): after the parent's return from vfork its shadow stack "
+                      "(idx, record_idx, entries) is not what it was when it called vfork", payload(k), True)
+    for k, why in bad_targets:
+        if k not in seen and len(seen) < 3:
+            seen.add(k)
+            ctx.violation("C11 violated in-process (vfork with unrecorded entries): " + why, payload(k), True)
+    if mm and not seen:
+        ctx.violation("vfork index model and libmcount disagree on %d script(s) (idx / record_idx / NORECORD flags)" % len(mm),
+                      dict(payload(mm[0]), correspondence="C11.Model.vs_run vs libmcount (prepare_vfork / mcount_restore_vfork)"), False)
 
 
 def has_nonlocal(ops):
@@ -1662,6 +2009,7 @@ def run_inproc(ctx, objdir):
                       {"mode": "inproc", "correspondence": "C11.Model.lstep vs libmcount hooks", "kind": kind,
                        "first_disagreement": first}, False)
     ctx.extra["inproc_disagreements"] = len(mism)
+    run_vfk(ctx, h)
     return ev
 
 
@@ -1690,13 +2038,16 @@ def replay(ctx, obj):
         elif ev and ev["mismatch_free"]:
             ctx.violation("model and libmcount disagree (replay)", {"mode": "inproc", "first_disagreement": case_json(ops, res)}, False)
         return
+    if obj.get("mode") == "inproc-vfk" and obj.get("script") and obj.get("model_ops"):
+        run_vfk(ctx, Harness(ctx, objdir), [(list(obj["script"]), [tuple(m) for m in obj["model_ops"]], set())])
+        return
     prog = obj.get("program") or (obj.get("first_disagreement") or {}).get("program")
     if prog:
         flags = obj.get("flags") or (obj.get("first_disagreement") or {}).get("flags") or ["-pg", "-O0"]
         lang = obj.get("lang") or ("c++" if "#include <c" in prog or "try {" in prog else "c")
         obs = run_e2e_one(ctx, objdir, os.path.join(ctx.scratch, "replay"), "r", prog, lang, flags, timeout_rec=15,
                           record_opts=obj.get("record_opts") or ())
-        probs, stream = judge_e2e(obs)
+        probs, stream = (judge_vff(obs, obj["record_opts"]), None) if obj.get("vff") else judge_e2e(obs)
         ctx.case(key="replay-e2e", sample={"problems": [list(p) for p in probs]})
         ctx.log("replayed end-to-end case:", probs)
         if [p for p in probs if p[0] != "machinery"]:
